@@ -459,6 +459,14 @@ class UserActions(object):
     recalc_cols = set()
     for col_id in table.all_columns:
       if col_id in column_values:
+        # The explicit value is kept (see DocActions.BulkAddRecord), except that a data-cleaning
+        # column (one that depends on itself) should still process it, as for updates.
+        if not table_id.startswith('_grist_'):
+          col_obj = table.get_column(col_id)
+          if col_obj.has_formula() and not col_obj.is_formula():
+            col_rec = self._docmodel.columns.lookupOne(tableId=table_id, colId=col_id)
+            if col_rec.recalcOnChangesToSelf:
+              self._engine.prevent_recalc(col_obj.node, filled_row_ids, should_prevent=False)
         continue
       if not table_id.startswith('_grist_'):
         col_rec = self._docmodel.columns.lookupOne(tableId=table_id, colId=col_id)
